@@ -265,5 +265,62 @@ def subUsageName (c : Cmd) (u : UInfo) (binName : Bytes) (sc : Cmd) : Option Byt
     let names := if sc.longFlag.isSome || sc.shortFlag.isSome then [123] ++ names0 ++ [125] else names0
     binName ++ mid ++ names
 
+/-! ### what a `MissingRequiredArgument` error carries (`Validator::validate_required` → `missing_required_error`) -/
+
+/-- the `missing_required` list of `validate_required` together with `highest_index`, pass 1: the required graph -/
+def missingPass1 (c : Cmd) (m : ArgMap) (pot : List (Id × List Id)) (excl : Bool) : List Id → List Id → Nat → Option (List Id × Nat)
+  | [], acc, hi => some (acc, hi)
+  | r :: rs, acc, hi =>
+    if m.checkExplicit r .isPresent then missingPass1 c m pot excl rs acc hi else
+    match c.find r with
+    | some a =>
+      match Validator.isMissingRequiredOk c pot a with
+      | none => none
+      | some ok =>
+        if !excl && !ok then missingPass1 c m pot excl rs (acc ++ [a.id]) (if a.last then hi else max hi (a.index.getD 0))
+        else missingPass1 c m pot excl rs acc hi
+    | none =>
+      match c.findGroup r with
+      | some g =>
+        match Validator.argsInGroup c g.id with
+        | none => none
+        | some members =>
+          if !(members.any fun a => m.checkExplicit a .isPresent) then missingPass1 c m pot excl rs (acc ++ [g.id]) hi
+          else missingPass1 c m pot excl rs acc hi
+      | none => missingPass1 c m pot excl rs acc hi
+
+/-- pass 2: the conditionally required args, in definition order -/
+def missingPass2 (m : ArgMap) (excl : Bool) : List Arg → List Id → Nat → List Id × Nat
+  | [], acc, hi => (acc, hi)
+  | a :: as, acc, hi =>
+    if Validator.conditionallyMissing m a && !excl then
+      missingPass2 m excl as (acc ++ [a.id]) (if a.last then hi else max hi (a.index.getD 0))
+    else missingPass2 m excl as acc hi
+
+/-- `validate_required`'s `missing_required` (pass 3 adds, for display, the absent positionals below the highest missing index) -/
+def missingRequired (c : Cmd) (m : ArgMap) (pot : List (Id × List Id)) : Option (List Id) :=
+  let excl := Validator.isExclusivePresent c m
+  match missingPass1 c m pot excl (Validator.requiredIds c m) [] 0 with
+  | none => none
+  | some (acc1, hi1) =>
+    let (acc2, hi2) := missingPass2 m excl c.args acc1 hi1
+    let extra := if c.settings.allowMissingPositional then [] else
+      (c.positionals.filter fun p => !m.checkExplicit p.id .isPresent &&
+        (match p.index with | some i => decide (i < hi2) | none => true)).map (·.id)
+    some (acc2 ++ extra)
+
+/-- `missing_required_error`: the strings of `ContextKind::InvalidArg` and the usage line of the error -/
+def missingRequiredError (c : Cmd) (u : UInfo) (m : ArgMap) (pot : List (Id × List Id)) : Option (List Bytes × Bytes) :=
+  match missingRequired c m pot with
+  | none => none
+  | some missing =>
+    let required := Validator.requiredIds c m
+    match requiredUsageFrom c u required missing (some m) true with
+    | none => none
+    | some reqArgs =>
+      let used := ((m.filter fun p => p.2.checkExplicit .isPresent).map (·.1)).filter
+        (fun n => ((c.find n).map fun a => !a.hide).getD false) ++ missing
+      (usageWithTitle c u required used).map fun line => (reqArgs, line)
+
 end Usage
 end Clap
